@@ -14,13 +14,15 @@
 -/
 import Babylon.Exec.InvAll
 import Babylon.Exec.SimpleLemmas
+import Babylon.Gen.Exec
 
 namespace Babylon.Properties.C07
 open Babylon.Exec Babylon.Core
 
 /-! ## Generated obligations: the source the model was written against -/
 
-theorem gen_queue_sizing : Gen.Exec.globalFactor = 2 ∧ Gen.Exec.localFactor = 2 := by decide
+theorem gen_queue_sizing :
+    Gen.Exec.globalFactor = Babylon.Exec.globalFactor ∧ Gen.Exec.localFactor = Babylon.Exec.localFactor := by decide
 
 /-- call-site flags of the queue operations (which side is concurrent, who waits on a futex, who wakes) -/
 theorem gen_queue_flags :
@@ -341,7 +343,7 @@ theorem exec_local_push_never_blocks (c : Cfg) (hc : c.WF) (s : State) (hr : Rea
     have hcell := J.l5 w id cid p k hpc hown
     have hst : (s.l k).stAt p = some .reserved := by simp [Q.stAt, hcell]
     have hb := Z.s4 w id cid p k hpc hown
-    have hL := L_le_lslots c gen_queue_sizing.2
+    have hL := L_le_lslots c
     have hfree : (s.l k).slotFree c.lslots p = true := by
       rw [Q.slotFree_iff]
       by_cases hp : p < c.lslots
